@@ -565,6 +565,26 @@ func ucisched(args []string) {
 			steps := realScript(r)
 			run(fmt.Sprintf("real-%v-%d-%d", spec.Name, *seed, i), steps, nil, false, spec, *delay)
 		}
+		// the generic engine with a book built from lines: asked at book positions and at positions that
+		// differ from a book position only in the en passant right (a reordered prefix)
+		lines := ucih.EpLines()
+		for i := 0; i < *n/4+2; i++ {
+			line := lines[r.Intn(len(lines))]
+			k := len(line) - 1
+			prefix := append([]string{}, line[:k]...)
+			if r.Intn(3) != 0 {
+				a := r.Intn(k)
+				if b := a + 2; b < k {
+					prefix[a], prefix[b] = prefix[b], prefix[a]
+				} else if b := a - 2; b >= 0 {
+					prefix[a], prefix[b] = prefix[b], prefix[a]
+				}
+			}
+			spec := ucih.EngineSpec{Name: "linebook", Book: true, Seed: r.Int63()}
+			steps := []stepT{{Kind: "cmd", Arg: "position startpos moves " + strings.Join(prefix, " ")},
+				{Kind: "cmd", Arg: "go depth 1"}, {Kind: "pause", D: 40}, {Kind: "cmd", Arg: "isready"}, {Kind: "pause", D: 20}}
+			run(fmt.Sprintf("real-linebook-%d-%d", *seed, i), steps, nil, false, spec, *delay)
+		}
 	}
 	w.Close()
 	_ = os.Stdout
